@@ -695,6 +695,75 @@ Section Proofs.
 End Proofs.
 
 (* ------------------------------------------------------------------ *)
+(* statements of props/Properties_C05.v that combine lemmas *)
+
+Section Combined.
+  Variables privkey pubkey sigt peerid : Type.
+  Variable pub : privkey -> pubkey.
+  Variable sign : privkey -> bytes -> sigt.
+  Variable verify : pubkey -> bytes -> sigt -> bool.
+  Variable peer_id : pubkey -> peerid.
+  Variable peerid_eqb : peerid -> peerid -> bool.
+  Variable Hf : bytes -> bytes.
+  Variable decode_pid : bytes -> option peerid.
+  Hypothesis eqb_spec : forall a b, peerid_eqb a b = true <-> a = b.
+  Hypothesis VS : VerifySign pub sign verify.
+  Hypothesis Hlen : H_len32 Hf.
+
+  Local Notation V strict := (verify_gen verify peer_id peerid_eqb (ideal_H Hf) decode_pid strict).
+
+  Lemma sign_verify_all :
+    (forall st a k a', sign_plain pub sign (ideal_H Hf) a k = Ok a' -> V st a' = Ok (peer_id (pub k))) /\
+    (forall a k fetch a',
+       sign_with_eps pub sign (ideal_H Hf) a k fetch = Ok a' ->
+       (forall x p, a_ext a = Some x -> In p (x_providers x) -> is_main a p = false ->
+                    forall key, fetch (p_id p) = Ok key -> decode_pid (p_id p) = Some (peer_id (pub key))) ->
+       V true a' = Ok (peer_id (pub k))).
+  Proof.
+    split.
+    - intros. eapply sign_verify_plain; eauto.
+    - intros. eapply sign_verify_eps; eauto.
+  Qed.
+
+  (* composed with any serialisation that round-trips (C13 proves the real ones do) *)
+  Lemma sign_verify_round_trip (encode : ad pubkey sigt -> bytes) (decode : bytes -> option (ad pubkey sigt)) :
+    (forall a, decode (encode a) = Some a) ->
+    (forall st a k a', sign_plain pub sign (ideal_H Hf) a k = Ok a' ->
+                       option_map (V st) (decode (encode a')) = Some (Ok (peer_id (pub k)))) /\
+    (forall a k fetch a',
+       sign_with_eps pub sign (ideal_H Hf) a k fetch = Ok a' ->
+       (forall x p, a_ext a = Some x -> In p (x_providers x) -> is_main a p = false ->
+                    forall key, fetch (p_id p) = Ok key -> decode_pid (p_id p) = Some (peer_id (pub key))) ->
+       option_map (V true) (decode (encode a')) = Some (Ok (peer_id (pub k)))).
+  Proof.
+    intro RT. destruct sign_verify_all as [A B]. split.
+    - intros. rewrite RT. cbn. f_equal. eapply A; eauto.
+    - intros. rewrite RT. cbn. f_equal. eapply B; eauto.
+  Qed.
+
+  Lemma main_provider_required_all :
+    (forall st a s x, V st a = Ok s -> a_ext a = Some x -> x_providers x <> [] ->
+                      existsb (is_main a) (x_providers x) = true) /\
+    (forall a k fetch a' x, sign_with_eps pub sign (ideal_H Hf) a k fetch = Ok a' -> a_ext a' = Some x ->
+                            x_providers x <> [] -> existsb (is_main a') (x_providers x) = true /\ a_rm a' = false).
+  Proof.
+    split.
+    - intros. eapply main_provider_listed; eauto.
+    - intros. eapply sign_requires_main; eauto.
+  Qed.
+
+  Lemma panic_characterised :
+    (forall st a, a_entries a <> None -> is_panic (V st a) = false) /\
+    (forall st a e, a_entries a = None -> a_sig a = Some e -> validate verify sig_dom e = true ->
+                    V st a = Panic PNilEntries).
+  Proof.
+    split.
+    - intros. apply verify_no_panic. assumption.
+    - intros. eapply verify_nil_entries; eauto.
+  Qed.
+End Combined.
+
+(* ------------------------------------------------------------------ *)
 (* the premises can be met together, and concrete runs on the symbolic instance *)
 
 Module Witness.
